@@ -287,10 +287,18 @@ TRANSLATED_BODIES = {
                               "remove_named_policy", "remove_named_policies", "add_grouping_policy", "add_grouping_policies",
                               "remove_grouping_policy", "remove_grouping_policies", "add_named_grouping_policy", "add_named_grouping_policies",
                               "remove_named_grouping_policy", "remove_named_grouping_policies", "remove_filtered_policy",
-                              "remove_filtered_grouping_policy", "remove_filtered_named_policy", "remove_filtered_named_grouping_policy"],
+                              "remove_filtered_grouping_policy", "remove_filtered_named_policy", "remove_filtered_named_grouping_policy",
+                              # read side: rs2coq part 13 (tools/rs2coq_query.py, PinChecks/PcQueryGen.v)
+                              "get_named_policy", "get_all_policy", "get_filtered_named_policy", "has_named_policy", "get_named_grouping_policy",
+                              "get_all_grouping_policy", "get_filtered_named_grouping_policy", "has_grouping_named_policy", "get_all_named_subjects",
+                              "get_all_named_objects", "get_all_named_actions", "get_all_named_roles", "get_policy", "get_filtered_policy",
+                              "has_policy", "get_grouping_policy", "get_filtered_grouping_policy", "has_grouping_policy", "get_all_subjects",
+                              "get_all_objects", "get_all_actions", "get_all_roles"],
     "src/rbac_api.rs": ["add_permission_for_user", "add_permissions_for_user", "add_role_for_user", "add_roles_for_user", "delete_role_for_user",
                         "delete_roles_for_user", "delete_user", "delete_role", "delete_permission", "delete_permission_for_user",
-                        "delete_permissions_for_user"],
+                        "delete_permissions_for_user",
+                        "get_roles_for_user", "get_users_for_role", "has_role_for_user", "get_permissions_for_user", "has_permission_for_user",
+                        "get_implicit_roles_for_user", "get_implicit_permissions_for_user", "get_implicit_users_for_permission"],
     "src/cached_enforcer.rs": ["set_role_manager", "set_model", "set_adapter", "build_role_links", "load_policy", "load_filtered_policy",
                                "clear_policy", "add_function", "set_effector", "enable_enforce", "save_policy", "enable_auto_save",
                                "enable_auto_build_role_links", "enable_auto_notify_watcher", "private_enforce", "private_enforce_with_context",
